@@ -301,6 +301,17 @@ func init() {
 		Assumptions: simdiskAssumptions,
 		NumCases:    func(t string) int { return tierN(t, 1500, 50000) },
 		Run: func(c *core.Case) *core.Result {
+			if c.Idx%3 == 2 {
+				// twin run: H;abort(T);K against H;K
+				res := &core.Result{}
+				cfg := GenConfig(c.R, 2)
+				with, without := genTwinAbort(c.R)
+				twinCompare(c, cfg, Monitors{Property: "C07", Content: true}, with, without, 2, res, "history with an aborted transaction vs the same history without it")
+				res.Key = fmt.Sprintf("twin-%d", c.Idx)
+				res.Nontrivial = res.Stats["twin_observations_compared"] > 5
+				res.Add("aborts", 1)
+				return res
+			}
 			return runFileCase(c, fileCaseSpec{
 				mon:     Monitors{Property: "C07", AbortID: true, Content: true, Partition: true, Coverage: true, ReopenID: true},
 				bounded: 2,
@@ -327,6 +338,20 @@ func init() {
 		Assumptions: simdiskAssumptions,
 		NumCases:    func(t string) int { return tierN(t, 1000, 30000) },
 		Run: func(c *core.Case) *core.Result {
+			switch c.Idx % 4 {
+			case 2:
+				// twin run: the same program with and without interposed close/reopen
+				res := &core.Result{}
+				cfg := GenConfig(c.R, 2)
+				with, without := genTwinReopen(c.R)
+				twinCompare(c, cfg, Monitors{Property: "C10", Content: true}, with, without, 0, res, "program with interposed close/reopen vs never closed instance")
+				res.Key = fmt.Sprintf("twin-%d", c.Idx)
+				res.Nontrivial = res.Stats["twin_observations_compared"] > 5
+				res.Add("reopens", 1)
+				return res
+			case 3:
+				return runShapeCase(c)
+			}
 			return runFileCase(c, fileCaseSpec{
 				mon:     Monitors{Property: "C10", ReopenID: true, Content: true, Partition: true, Coverage: true},
 				bounded: 2,
